@@ -273,6 +273,9 @@ func c08One(t *testing.T, run *c08Run) {
 	}))
 	defer srv.Close()
 
+	// requests are intercepted in the transport: independent of the client API the uploader uses
+	defer rt.InstallHTTP()()
+
 	s := rt.NewSched()
 	defer s.Close()
 	w.sched = s
